@@ -50,6 +50,57 @@ def drop_logging(body, fired):
     return ''.join(out)
 
 
+_PURE_TOKEN = re.compile(r"\s+|[A-Za-z_][A-Za-z0-9_]*(?:\s*(?:::|\.)\s*[A-Za-z_0-9][A-Za-z0-9_]*)*(?!\s*[(!\[{])|\d[A-Za-z0-9_]*|&&|\|\||==|!=|<=|>=|[!<>()*&]")
+
+
+def _is_pure_expr(e):
+    """True for an expression made only of identifiers / paths / field accesses, integer and bool literals, `!`,
+    comparisons, `&&`, `||`, `*` / `&` (deref / borrow) and parentheses: no call, macro, index, block or `?`, so evaluating
+    it has no effect and cannot diverge."""
+    pos = 0
+    while pos < len(e):
+        m = _PURE_TOKEN.match(e, pos)
+        if not m or m.end() == pos:
+            return False
+        pos = m.end()
+    return e.strip() != '' and e.count('(') == e.count(')')
+
+
+def norm_bool_op_assign(body, fired):
+    """Always on (fires 0 or more times): `X |= E;` -> `X = X || (E);` and `X &= E;` -> `X = X && (E);` where X is a local the
+    body declares as a bool (`let mut X = true|false;` or `let mut X: bool`) and E is pure (`_is_pure_expr`).
+    Rust reference, "Boolean type": `a | b` is logical or, `a & b` logical and; "Lazy boolean operators": `||` / `&&`
+    "differ from | and & in that the right operand is only evaluated when the left operand does not already determine the
+    result" - with a right operand whose evaluation has no effect the two are the same function.  Verus has no
+    non-short-circuit bool operators.  X and E are re-emitted unchanged; anything else is left alone (and is then the
+    verifier's business: undecided)."""
+    mask = code_mask(body)
+    bools = set()
+    for m in re.finditer(r'(?<![A-Za-z0-9_])let\s+mut\s+(%s)\s*(?:=\s*(?:true|false)\s*;|:\s*bool\b)' % IDENT, body):
+        if mask[m.start()]:
+            bools.add(m.group(1))
+    if not bools:
+        return body
+    out, pos, n = [], 0, 0
+    for m in re.finditer(r'(?<![A-Za-z0-9_.])(%s)\s*([|&])=(?!=)' % IDENT, body):
+        if not mask[m.start()] or m.start() < pos or m.group(1) not in bools:
+            continue
+        sm = find_top(body, r';', m.end(), mask)
+        if not sm:
+            continue
+        e = body[m.end():sm.start()].strip()
+        if not _is_pure_expr(e):
+            continue
+        out.append(body[pos:m.start()])
+        out.append('%s = %s %s (%s);' % (m.group(1), m.group(1), '||' if m.group(2) == '|' else '&&', e))
+        pos = sm.end()
+        n += 1
+    out.append(body[pos:])
+    if n:
+        fired['norm-bool-op-assign'] = fired.get('norm-bool-op-assign', 0) + n
+    return ''.join(out)
+
+
 def R1(body, ctx):
     """`fn f(mut self, ..) { B }` -> `fn f(self, ..) { let mut self_ = self; B[self -> self_] }`"""
     p = ctx['params']
